@@ -87,7 +87,7 @@ func c01aRun(c c01aCase) (out Outcome) {
 		tables[regSpec{NS: tb.NS, Table: tb.Table}.fq()] = true
 	}
 	// also probe sibling names that hold no regions at all
-	for _, s := range []string{"t", "t-", "tt", "ns:t"} {
+	for _, s := range gen.TableFamily {
 		tables[s] = true
 	}
 	multi := len(all) > len(c.Tables) || len(c.Tables) > 1
